@@ -89,6 +89,34 @@ func e4GenCase(rt *rapid.T, o e4GenOpts) e4Case {
 	c := e4Case{Cfg: e4GenConfig(rt)}
 	c.Steps = e4GenSteps(rt, o)
 	c.Faults = e4GenFaults(rt, o)
+	if rapid.IntRange(0, 5).Draw(rt, "resubTemplate") == 0 {
+		// template "re-subscription interrupted while requests are pending": an established subscription,
+		// a re-subscribing configuration, and a fault on the SUBSCRIBE of the 2nd / 3rd connection
+		c.Cfg.AlwaysResub = true
+		pre := []e4Step{{Kind: "connect"}, {Kind: "sub", QoS: rapid.IntRange(0, 2).Draw(rt, "tq"), Idx: 900}, {Kind: "settle"}}
+		var rest []e4Step
+		for _, st := range c.Steps {
+			if st.Kind != "connect" {
+				rest = append(rest, st)
+			}
+		}
+		c.Steps = append(pre, rest...)
+		// submission indexes must follow step order: renumber
+		n := 0
+		for i := range c.Steps {
+			switch c.Steps[i].Kind {
+			case "pub", "sub", "unsub":
+				n++
+				c.Steps[i].Idx = n
+			case "atHook":
+				n++
+				sub := *c.Steps[i].Sub
+				sub.Idx = n
+				c.Steps[i].Sub = &sub
+			}
+		}
+		c.Faults = append(c.Faults, e4Fault{Kind: "cutType", Conn: rapid.IntRange(2, 3).Draw(rt, "tconn"), Type: rtSubscribe, Nth: rapid.IntRange(1, 2).Draw(rt, "tnth"), After: rapid.Bool().Draw(rt, "tafter")})
+	}
 	if e4NeedsConnTimeout(c.Faults) {
 		c.Cfg.ConnTimeoutMs = 15
 	}
@@ -113,8 +141,8 @@ func TestVerifC01_NoLoss(t *testing.T) {
 		})
 }
 
-var e4OptsC02 = e4GenOpts{MaxSteps: 8, QoSWeights: []int{1, 1, 8}, SubWeight: 1, MaxFaults: 5, Outages: true, PreConnect: false,
-	CutTypes: []int{rtPublish, rtPublish, rtPubRel, rtPubRel, rtPubRel, rtConnect}, MaxConn: 4}
+var e4OptsC02 = e4GenOpts{MaxSteps: 8, QoSWeights: []int{1, 1, 8}, SubWeight: 3, MaxFaults: 5, Outages: true, PreConnect: false,
+	CutTypes: []int{rtPublish, rtPublish, rtPubRel, rtPubRel, rtPubRel, rtConnect, rtSubscribe}, MaxConn: 4}
 
 func TestVerifC02_ExactlyOnce(t *testing.T) {
 	vRun(t, "C02", vOpts{CurFile: true, ReplayReps: 25}, func(rt *rapid.T) e4Case {
@@ -147,7 +175,7 @@ func TestVerifC03_Order(t *testing.T) {
 }
 
 var e4OptsC12 = e4GenOpts{MaxSteps: 8, QoSWeights: []int{1, 4, 5}, SubWeight: 1, MaxFaults: 6, Outages: true, PreConnect: true,
-	CutTypes: []int{rtPublish, rtPublish, rtPubRel, rtPubRel, rtConnect}, MaxConn: 5}
+	CutTypes: []int{rtPublish, rtPublish, rtPubRel, rtPubRel, rtConnect, rtSubscribe}, MaxConn: 5}
 
 func TestVerifC12_Retransmit(t *testing.T) {
 	vRun(t, "C12", vOpts{CurFile: true, ReplayReps: 25}, func(rt *rapid.T) e4Case {
